@@ -761,3 +761,11 @@ Proof.
     + apply takeN_takeN. lia.
     + unfold takeN, lenN. rewrite firstn_length, length_le_bytes. lia.
 Qed.
+
+(* `arg1` (no format: 'long int' by the manual) holding 4294967295 is shown as -1 *)
+Lemma auto_neg32_refuted :
+  let sp := Sp 1 FAuto 8 TIndex 0 in
+  let inp := {| regs := [0xffffffff; 0; 0; 0; 0; 0]; xmm := []; stk := []; rets := []; strs := []; wrds := [] |} in
+  show_args [] [sp] (payload (run 0 inp false [sp])) = [40; 45; 49; 41] /\
+  ok_args [(sp, AInt 0xffffffff)] (show_args [] [sp] (payload (run 0 inp false [sp]))) = false.
+Proof. vm_compute. split; reflexivity. Qed.
